@@ -45,7 +45,7 @@ func (k c19Case) key() string {
 }
 
 // c19RecoveryError is the error the recovery function returns on its n-th call.
-func c19RecoveryError(ret string, n int) error {
+func c19RecoveryError(ret string, n int, recovered any) error {
 	coded := connect.NewError(connect.CodeDataLoss, fmt.Errorf("recovered #%d", n))
 	switch ret {
 	case "uncoded":
@@ -54,6 +54,12 @@ func c19RecoveryError(ret string, n int) error {
 		return fmt.Errorf("outer: %w", coded)
 	case "ctx-deadline":
 		return fmt.Errorf("late #%d: %w", n, context.DeadlineExceeded)
+	case "coded-wraps-cause":
+		// the usual shape of a recovery function: keep the panic's cause in the chain
+		if cause, ok := recovered.(error); ok {
+			return connect.NewError(connect.CodeDataLoss, fmt.Errorf("recovered #%d: %w", n, cause))
+		}
+		return coded
 	case "coded-meta":
 		coded.Meta().Add("X-Err", "m1")
 		coded.Meta().Add("X-Err", "m2")
@@ -67,6 +73,7 @@ type c19Struct struct{ A int }
 var c19Ptr = &c19Struct{7}
 var c19Err = errors.New("boom error")
 var c19Wrapped = fmt.Errorf("wrapped: %w", http.ErrAbortHandler)
+var c19WrappedEOF = fmt.Errorf("read request: %w", io.EOF)
 
 func c19Value(name string) any {
 	switch name {
@@ -80,6 +87,10 @@ func c19Value(name string) any {
 		return c19Struct{3}
 	case "pointer":
 		return c19Ptr
+	case "eof":
+		return io.EOF
+	case "wrapped-eof":
+		return c19WrappedEOF
 	case "abort":
 		return http.ErrAbortHandler
 	case "wrapped-abort":
@@ -131,7 +142,7 @@ func c19RunMode(k c19Case, withRecover, returnInstead bool) c19Result {
 	if withRecover {
 		opts = append(opts, connect.WithRecover(func(ctx context.Context, spec connect.Spec, hdr http.Header, r any) error {
 			out.Recovered = append(out.Recovered, r)
-			return c19RecoveryError(k.Ret, len(out.Recovered))
+			return c19RecoveryError(k.Ret, len(out.Recovered), r)
 		}))
 	}
 	for i := 0; i < k.After; i++ {
@@ -140,7 +151,7 @@ func c19RunMode(k c19Case, withRecover, returnInstead bool) c19Result {
 	doPanic := func(at int) error {
 		if k.Value != "none" && k.Value != "none-err" && k.Point == at {
 			if returnInstead {
-				return c19RecoveryError(k.Ret, 1)
+				return c19RecoveryError(k.Ret, 1, c19Value(k.Value))
 			}
 			panic(c19Value(k.Value))
 		}
@@ -255,7 +266,7 @@ func c19Check(c *ev.Collector, k c19Case) {
 		ref := c19RunMode(k, false, true)
 		if obsString(ref.Res) != obsString(got.Res) {
 			bad = true
-			viol("client-gets-recovery-error", "differs-from-returned", "recovery function returned %q; client observed %s; a handler returning that error at the same point gives %s", c19RecoveryError(k.Ret, 1), obsString(got.Res), obsString(ref.Res))
+			viol("client-gets-recovery-error", "differs-from-returned", "recovery function returned %q; client observed %s; a handler returning that error at the same point gives %s", c19RecoveryError(k.Ret, 1, c19Value(k.Value)), obsString(got.Res), obsString(ref.Res))
 		}
 		var ce *connect.Error
 		if k.Ret == "uncoded" {
@@ -267,6 +278,11 @@ func c19Check(c *ev.Collector, k c19Case) {
 			if connect.CodeOf(got.Res.Err) != connect.CodeDeadlineExceeded {
 				bad = true
 				viol("client-gets-recovery-error", "wrong-error", "client received %v; want deadline_exceeded", got.Res.Err)
+			}
+		} else if k.Ret == "coded-wraps-cause" {
+			if got.Res.Err == nil || !errors.As(got.Res.Err, &ce) || ce.Code() != connect.CodeDataLoss || !strings.HasPrefix(ce.Message(), "recovered #1: ") {
+				bad = true
+				viol("client-gets-recovery-error", "wrong-error", "client received %v (msgs %s); want data_loss: recovered #1: <cause>", got.Res.Err, shortMsgs(got.Res.Msgs))
 			}
 		} else if got.Res.Err == nil || !errors.As(got.Res.Err, &ce) || ce.Code() != connect.CodeDataLoss || !strings.HasSuffix(ce.Message(), "recovered #1") {
 			bad = true
@@ -289,7 +305,7 @@ func c19Check(c *ev.Collector, k c19Case) {
 }
 
 func c19Cases(thorough bool) []c19Case {
-	values := []string{"nil", "error", "string", "struct", "pointer", "abort", "wrapped-abort", "none", "none-err"}
+	values := []string{"nil", "error", "string", "struct", "pointer", "abort", "wrapped-abort", "none", "none-err", "eof", "wrapped-eof"}
 	var out []c19Case
 	for _, p := range AllProtos {
 		for _, kind := range AllKinds {
@@ -312,6 +328,9 @@ func c19Cases(thorough bool) []c19Case {
 							}
 							for _, pn := range []bool{false, true} {
 								out = append(out, c19Case{Proto: p, Kind: kind, Value: v, Point: pt, Before: before, After: after, PanicNil: pn})
+								if (v == "eof" || v == "wrapped-eof") && before+after <= 1 {
+									out = append(out, c19Case{Proto: p, Kind: kind, Value: v, Point: pt, Before: before, After: after, PanicNil: pn, Ret: "coded-wraps-cause"})
+								}
 								if (v == "string" || v == "nil" || (thorough && v == "error")) && (thorough || before+after <= 1) {
 									for _, ret := range []string{"uncoded", "wrapped-coded", "ctx-deadline", "coded-meta"} {
 										out = append(out, c19Case{Proto: p, Kind: kind, Value: v, Point: pt, Before: before, After: after, PanicNil: pn, Ret: ret})
